@@ -82,6 +82,26 @@ def cases(spec, ctx):
         qblocks = G.rand_layout(rng, g, 4, overlap=(rng.random() < 0.15))
         yield {"kind": "random", "blocks": blocks, "strand": rng.choice("+-"), "genome": g, "parent": rng.choice(modes),
                "q": qblocks, "qstrand": rng.choice("+-."), "seed": rng.randrange(1 << 30)}
+    # scale legs (own stream): many blocks (strategies that switch by block count), and coordinates far beyond 2^31 / 2^53
+    # (sequence-less locations: nothing in the property bounds the magnitude of a coordinate)
+    srng = __import__("random").Random(f"C01-scale:{ctx.seed}:{i}")
+    for k in range(sc["NR"] // (8 * n) + 1):
+        g = srng.choice([120, 400, 2000])
+        ov = srng.random() < 0.3
+        nb = srng.randint(9, 30)
+        blocks = ()
+        while len(blocks) < 9:
+            blocks = G.rand_layout(srng, g, nb, overlap=ov)
+        qblocks = G.rand_layout(srng, g, srng.choice([1, 4, 12]), overlap=False)
+        yield {"kind": "random", "blocks": blocks, "strand": srng.choice("+-"), "genome": g, "parent": srng.choice(modes),
+               "q": qblocks, "qstrand": srng.choice("+-."), "seed": srng.randrange(1 << 30), "scale": "many-blocks"}
+    for k in range(sc["NR"] // (8 * n) + 1):
+        g = srng.choice([12, 30, 80])
+        off = srng.choice([(1 << 31) - 5, (1 << 31) + 7, (1 << 32) - 3, (1 << 53) + 11, 10 ** 12, (1 << 63) - 100])
+        blocks = tuple((s + off, e + off) for s, e in G.rand_layout(srng, g, 5, overlap=srng.random() < 0.2))
+        qblocks = tuple((s + off, e + off) for s, e in G.rand_layout(srng, g, 3, overlap=False))
+        yield {"kind": "random", "blocks": blocks, "strand": srng.choice("+-"), "genome": g + off, "parent": "none",
+               "q": qblocks, "qstrand": srng.choice("+-."), "seed": srng.randrange(1 << 30), "scale": "huge-coordinates"}
 
 
 REJECT = None
@@ -293,7 +313,8 @@ def run_case(case, ctx):
 
         rng = random.Random(case["seed"])
         loc = _mk(case, blocks, strand)
-        ctx.note(("rand",) + G.layout_signature(blocks, strand), nontrivial=True, klass="random-overlapping" if ov else "random")
+        ctx.note(("rand",) + G.layout_signature(blocks, strand) + (case.get("scale"),), nontrivial=True,
+                 klass=("random-" + case["scale"]) if case.get("scale") else ("random-overlapping" if ov else "random"))
         check_point_maps(ctx, loc, P, span, ov)
         n = len(P)
         for _ in range(25):
